@@ -103,11 +103,13 @@ var strPieces = []string{
 	"a/very/long/path/to/some/source/file/that/goes/on/and/on.go", "another/quite/long/dependency/path/**/*.txt",
 }
 
-var cmdHeads = []string{"echo", "go", "printf", "test", "a", "Z", "mkdir", "true"}
+var cmdHeads = []string{"echo", "go", "printf", "test", "a", "Z", "mkdir", "true", "task", "tasks", "taskfile"}
 
 var cmdPieces = []string{
 	" ", "x", "./...", "-race", "{{.X}}", "{{.NAME}}", "$HOME", "\"q\"", "'s'", "|", "&&", ">", "a.txt", "\t",
 	"-", "=", "1", "(", ")", ",", ";", "\\", ":=", "->", "task", "{{", "{{.A}}/{{.B}}", "*", "~", "%",
+	" && go test -race -count=1 -coverprofile=coverage.out ./internal/... ./cmd/... && go tool cover -html=coverage.out",
+	"     aligned   in   columns     ",
 }
 
 var commentPieces = []string{
@@ -336,6 +338,11 @@ func (l *Layout) list(b *strings.Builder, args []Arg) {
 			b.WriteString(l.eol())
 			b.WriteString(l.indent())
 		}
+	} else if !l.Small && len(args) > 0 && args[len(args)-1].Ident && l.C.Choose(5) == 0 {
+		// the closing parenthesis on a line of its own, directly after an identifier (after a string
+		// the pinned grammar wants the comma first)
+		b.WriteString(l.eol())
+		b.WriteString(l.indent())
 	}
 	b.WriteString(l.sp())
 	b.WriteString(")")
@@ -390,6 +397,9 @@ func (l *Layout) Write(p Prog) string {
 				b.WriteString(l.sp())
 				if len(st.Outs) == 1 && l.C.Choose(2) == 0 {
 					b.WriteString(l.arg(st.Outs[0]))
+					if !l.Small && st.Outs[0].Ident && l.C.Choose(5) == 0 {
+						b.WriteString(l.eol()) // the opening brace on the next line, after a bare identifier
+					}
 				} else {
 					l.list(&b, st.Outs)
 				}
